@@ -282,6 +282,22 @@ Composite(cf) ==
         /\ budget' = IF budget = 99 THEN 99 ELSE budget - k
         /\ UNCHANGED regs
 
+(* ---- decoding into locked containers (serde) under C19 ------------------------------------------ *)
+\* Deserialize returns a Result: a refused lock must surface as an error of the decoder, not as a panic.  The object is
+\* dropped right after the call and the decoder's transient allocations are not part of the abstract state (the harness
+\* checks on its own that each of them was released wiped); only the verdict and the lock budget are modelled.
+DeserForms == { [f |-> "json seq -> Locked<HeapByteArray<32>>",   locks |-> 1],
+                [f |-> "bincode bytes -> Locked<HeapByteArray<32>>", locks |-> 1],
+                [f |-> "json seq -> LockedBytes",                  locks |-> 1],
+                [f |-> "bincode bytes -> LockedBytes",             locks |-> 1],
+                [f |-> "json -> LockedKeyPair",                    locks |-> 2],
+                [f |-> "bincode -> LockedKeyPair",                 locks |-> 2] }
+Deserialize(df) ==
+  /\ Step(<<"deserialize", 0, df.f>>)
+  /\ res' = IF budget = 99 \/ budget >= df.locks THEN "Ok" ELSE "Err"
+  /\ budget' = IF budget = 99 THEN 99 ELSE IF budget >= df.locks THEN budget - df.locks ELSE 0
+  /\ UNCHANGED <<regs, allocs, released>>
+
 \* read the bytes through a shared view (as_slice / Deref / index / as_array)
 ReadView(h) ==
   /\ Step(<<"view", h>>)
@@ -294,6 +310,7 @@ Next == \/ \E h \in Handles, fm \in Forms, k \in {"Fixed", "Resizable"}, l \in L
         \/ \E h, g \in Handles : Clone(h, g)
         \/ \E h \in Handles, l \in Lens : Resize(h, l)
         \/ \E cf \in CompForms : Composite(cf)
+        \/ \E df \in DeserForms : Deserialize(df)
 
 Spec == Init /\ [][Next]_vars
 
@@ -339,7 +356,7 @@ CloneCopies ==
                                                 /\ regs'[lastop'[2]] = regs[lastop'[2]])]_vars
 
 \* C19: a refused lock is an error for every Result-returning operation, and it disturbs no other region
-ResultOps == {"ctor", "heap_mlock", "mlock", "munlock", "mprotect", "composite"}
+ResultOps == {"ctor", "heap_mlock", "mlock", "munlock", "mprotect", "composite", "deserialize"}
 RefusalIsError ==
   [][/\ (lastop'[1] \in ResultOps => res' \in {"Ok", "Err"})
      /\ (res' \in {"Err", "Panic"} =>
